@@ -138,9 +138,9 @@ def tiny_world(p, a, b, fpb=8, bnbits=32, wd=4, dep=5, dgb=8, sys=PROJC, endom=F
     return c
 
 
-def tiny_worlds(sys=PROJC, **kw):
-    """A GLV curve (a = 0), an a = -3 curve, a generic-a curve and a curve with cofactor 3, all of
-    prime (sub)group order below 2^8 over 8-bit primes."""
+def tiny_worlds(sys=PROJC, even=False, **kw):
+    """A GLV curve (a = 0), an a = -3 curve, a generic-a curve and a curve with cofactor 3 (optionally
+    one with cofactor 2), all of prime (sub)group order below 2^8 over 8-bit primes."""
     out = []
     w = tiny_world(241, 0, 13, endom=True, sys=sys, **kw)      # order 211, beta = 15, lambda = 14
     if w:
@@ -153,6 +153,10 @@ def tiny_worlds(sys=PROJC, **kw):
                 return w
         return None
     for w in (first(251, 251 - 3), first(239, 100), first(233, 7, h=3)):
+        if w:
+            out.append(w)
+    if even:
+        w = first(227, 5, h=2)          # a point of order two exists: (x0, 0)
         if w:
             out.append(w)
     return out
@@ -240,10 +244,12 @@ def rep_suffix(cv, sys, rng, force=None):
 
 
 def inf_token(sys, rng):
+    """The identity in a form valid for system sys: the library form, the form the formulas produce
+    ((0:1:0) / (1:1:0)) and the all-zero triple with a projective tag (ep_add_jacob's P + (-P))."""
     if sys == PROJC:
-        return rng.choice(["inf", "infp"])
+        return rng.choice(["inf", "infp", "inf0p"])
     if sys == JACOB:
-        return rng.choice(["inf", "infj"])
+        return rng.choice(["inf", "infj", "inf0j"])
     return "inf"
 
 
@@ -323,11 +329,13 @@ def xy_token(cv, P, sys, rng):
     return "xy%x,%x%s" % (P[0], P[1], rep_suffix(cv, sys, rng))
 
 
-def group_cases_xy(cv, rng, pairs):
+def group_cases_xy(cv, rng, pairs, ops=("ep_add", "ep_sub", "ep_add_jacob", "ep_add_basic", "ep_add_projc")):
     """Group law on ALL points of a tiny curve with cofactor (points given by coordinates)."""
     cases = []
+    sysof = {"ep_add": cv.sys, "ep_sub": cv.sys, "ep_add_jacob": JACOB, "ep_add_basic": BASIC, "ep_add_projc": PROJC}
     for (P, Q) in pairs:
-        for op, s in (("ep_add", cv.sys), ("ep_sub", cv.sys), ("ep_add_jacob", JACOB), ("ep_add_basic", BASIC)):
+        for op in ops:
+            s = sysof[op]
             a = xy_token(cv, P, s, rng) if P else inf_token(s, rng)
             b = xy_token(cv, Q, s, rng) if Q else inf_token(s, rng)
             cases.append("%s %s %d %s %s" % (op, cv.spec, rng.choice([0, 0, 1, 2]), a, b))
@@ -375,7 +383,13 @@ def sim_cases(cv, rng, kpairs_for, point_ms, ops=None):
     cases = []
     c = cv.spec
     for op in (ops or (MUL_SIM + ["ep_mul_sim_gen"])):
+        crash_budget = 1
         for (k, m) in kpairs_for(op):
+            if op == "ep_mul_sim_trick" and k and m and 1 in (k % cv.n, m % cv.n):
+                # known finding (bn_rec_win runs past its buffer: SIGSEGV); keep one such case per curve
+                if crash_budget <= 0:
+                    k, m = (k + 1 if k % cv.n == 1 else k), (m + 1 if m % cv.n == 1 else m)
+                crash_budget -= 1
             if op == "ep_mul_sim_gen":
                 cases.append("%s %s %d %s %s %s" % (op, c, rng.choice([0, 0, 2]), hx(k),
                                                     mul_point(cv, rng, point_ms + [0]), hx(m)))
